@@ -220,4 +220,36 @@ example : ValidChain exP ([exG] ++ [exB1]) :=
 example : blockValid exP (replay [exG, exB1]) exB2 = false := by decide
 example : (processBlock (processBlock (initState exP exG) exB1).1 exB2).2 = .err := by decide
 
+/-- **C06 for the signature-less spender.** A CRCAppropriation that the context check accepts spends only
+    outpoints that are unspent on the ledger (and all of them belong to the CR assets address): the ledger's
+    double-spend test runs before the special check that ends the context check for this type. -/
+theorem C06_approp_spends_unspent (L : Ledger) (assets : Nat) (appr : Option Int) (tx : Tx)
+    (h : ctxApprop L assets appr tx = 0) :
+    ∀ p ∈ tx.ins, ∃ e, L.find p = some e ∧ e.addr = assets := by
+  unfold ctxApprop at h
+  by_cases h1 : (L.txs.any fun t => t.1 == tx.id) = true
+  · simp [h1] at h
+  · simp only [h1, Bool.false_eq_true, if_false] at h
+    by_cases h2 : (!(tx.ins.all fun p => L.txs.any fun t => t.1 == p.1)) = true
+    · simp [h2] at h
+    · simp only [h2, Bool.false_eq_true, if_false] at h
+      by_cases h3 : (!(tx.ins.all fun p => (L.find p).isSome)) = true
+      · simp [h3] at h
+      · simp only [h3, Bool.false_eq_true, if_false] at h
+        cases appr with
+        | none => simp at h
+        | some amt =>
+          simp only at h
+          by_cases h4 : fromAssets L assets tx = true
+          · intro p hp
+            have := List.all_eq_true.mp h4 p hp
+            cases hf : L.find p with
+            | none => simp [hf] at this
+            | some e => exact ⟨e, rfl, by simpa [hf] using this⟩
+          · simp [h4] at h
+
+/-- a RegisterAsset transaction passes no sanity check (the unspent index skips the type; fix bcb6426e) -/
+theorem C06_registerAsset_refused (tx : Tx) (h : tx.kind = .registerAsset) : txSane tx = false := by
+  simp [txSane, h]
+
 end ElaVerif.C06
